@@ -2464,7 +2464,7 @@ class Stats(Monitor):
     def generate(self, rng, tier):
         descs = valid_bases(rng, 5 if tier == "quick" else 25, max_sites=4)
         bases = [base_valid(rng, d) for d in descs]
-        modes = ("site", "branch", "node")
+        modes = ("site", "branch", "node") if tier != "quick" else ("site", "branch")
         for sets in SETS_LISTS:
             exp = sets_expect(sets) or "any"
             for mode in modes:
@@ -2666,7 +2666,7 @@ class RawTables(Monitor):
 
     def generate(self, rng, tier):
         descs = valid_bases(rng, 12 if tier == "quick" else 60, max_sites=4, migrations=False)
-        n = 450 if tier == "quick" else 8000
+        n = 250 if tier == "quick" else 8000
         # systematic part: every kind of damage x every table-collection entry point
         entry = [{"op": "tc.call", "args": {"m": m}} for m in TC_CALLS] + [
             {"op": "tc.simplify", "args": {"samples": ["0", "1"], "opts": {}}},
